@@ -79,7 +79,8 @@ func Open(dir string, opts Options) (result Log, err error) {
 	switch {
 	case opts.Readonly && len(segments) == 0:
 		ix := newReaderIndex(nil, params.Keys, 0, true)
-		rdr := reopenReader(segment.New(dir, 0, opts.AutoSync), params, opts.Version.NewSegmentsVersion, ix)
+		// there are no files to load this index from again, as the head it is never unloaded
+		rdr := reopenReader(segment.New(dir, 0, opts.AutoSync), params, opts.Version.NewSegmentsVersion, ix, true)
 		l.readers = []*reader{rdr}
 	case opts.Readonly:
 		if opts.Check || opts.Recover {
